@@ -220,14 +220,14 @@ CATALOGUE = [
       "        int j, k, l\n        DFIELD_t sum\n        FIELD_t diff\n        ndarray[DFIELD_t, ndim=2, mode='c'] distance = \\\n            np.zeros((ntime_x, ntime_y), dtype=DFIELD)",
       "T8/_manhattan_distance_matrix_crp"),
     B("c07-no-rebuild", "C07", "src/pyunicorn/timeseries/recurrence_network.py",
-      "        A = self.R.copy()\n        A.flat[::self.N+1] = 0\n\n        #  Create a Network object interpreting the recurrence matrix as the\n        #  graph adjacency matrix. Recurrence networks are undirected by\n        #  definition.\n        Network.__init__(self, A, directed=False,\n                         silence_level=self.silence_level)\n\n    def set_fixed_local_recurrence_rate",
+      "        A = self.R.copy()\n        np.fill_diagonal(A, 0)\n\n        #  Create a Network object interpreting the recurrence matrix as the\n        #  graph adjacency matrix. Recurrence networks are undirected by\n        #  definition.\n        Network.__init__(self, A, directed=False,\n                         silence_level=self.silence_level)\n\n    def set_fixed_local_recurrence_rate",
       "\n    def set_fixed_local_recurrence_rate", "T2/"),
     B("c07-keep-diagonal", "C07", "src/pyunicorn/timeseries/recurrence_network.py",
-      "        A = self.R.copy()\n        A.flat[::self.N+1] = 0\n\n        #  Create a Network object interpreting the recurrence matrix as the\n        #  graph adjacency matrix. Recurrence networks are undirected by\n        #  definition.\n        Network.__init__(self, A, directed=False,\n                         silence_level=self.silence_level)\n\n    def set_fixed_local_recurrence_rate",
+      "        A = self.R.copy()\n        np.fill_diagonal(A, 0)\n\n        #  Create a Network object interpreting the recurrence matrix as the\n        #  graph adjacency matrix. Recurrence networks are undirected by\n        #  definition.\n        Network.__init__(self, A, directed=False,\n                         silence_level=self.silence_level)\n\n    def set_fixed_local_recurrence_rate",
       "        A = self.R.copy()\n        Network.__init__(self, A, directed=False,\n                         silence_level=self.silence_level)\n\n    def set_fixed_local_recurrence_rate", "T2/"),
     T("c07-fill-diagonal", "C07", "src/pyunicorn/timeseries/recurrence_network.py",
-      "        A = self.R.copy()\n        A.flat[::self.N+1] = 0\n\n        #  Create a Network object interpreting the recurrence matrix as the\n        #  graph adjacency matrix. Recurrence networks are undirected by\n        #  definition.\n        Network.__init__(self, A, directed=False,",
-      "        A = np.array(self.R)\n        np.fill_diagonal(A, 0)\n        Network.__init__(self, A, directed=False,"),
+      "        A = self.R.copy()\n        np.fill_diagonal(A, 0)\n\n        #  Create a Network object interpreting the recurrence matrix as the\n        #  graph adjacency matrix. Recurrence networks are undirected by\n        #  definition.\n        Network.__init__(self, A, directed=False,",
+      "        A = np.array(self.R)\n        A.flat[::A.shape[0]+1] = 0\n        Network.__init__(self, A, directed=False,"),
     B("c08-mask-by-line-index", "C08", TPYX,
       "    for i in range(N):\n        for j in range(i2J(i, N)):\n            I = ij2I(i, j, N)",
       "    for i in range(N):\n        if missing_values and M[i]:\n            continue\n        for j in range(i2J(i, N)):\n            I = ij2I(i, j, N)",
